@@ -18,12 +18,14 @@ import (
 	"context"
 	"crypto/sha256"
 	"encoding/base64"
+	"errors"
 	"net/url"
 	"regexp"
 
 	"github.com/ory/fosite"
 	"github.com/ory/fosite/compose"
 	"github.com/ory/fosite/handler/openid"
+	"github.com/ory/fosite/storage"
 	"github.com/ory/fosite/token/jwt"
 	"github.com/ory/fosite/zz_verif_h/world"
 	"github.com/ory/fosite/zz_verif_h/zz"
@@ -97,13 +99,26 @@ func newState(hybrid bool) *st {
 			cs.Signer = &jwt.DefaultSigner{GetPrivateKey: getter}
 		}
 		// compose order of ComposeAllEnabled: every handler that issues a code precedes the PKCE handler
+		// (the complete list of ComposeAllEnabled: several packages name their handler type "Handler", and
+		// the handler lists drop duplicates by type - the PKCE handler must survive that on both endpoints)
 		opt.Factories = []compose.Factory{
 			compose.OAuth2AuthorizeExplicitFactory,
 			compose.OAuth2AuthorizeImplicitFactory,
+			compose.OAuth2ClientCredentialsGrantFactory,
 			compose.OAuth2RefreshTokenGrantFactory,
+			compose.OAuth2ResourceOwnerPasswordCredentialsFactory,
+			compose.RFC7523AssertionGrantFactory,
+			compose.RFC8628DeviceFactory,
+			compose.RFC8628DeviceAuthorizationTokenFactory,
+			compose.OpenIDConnectExplicitFactory,
+			compose.OpenIDConnectImplicitFactory,
 			compose.OpenIDConnectHybridFactory,
+			compose.OpenIDConnectRefreshFactory,
+			compose.OpenIDConnectDeviceFactory,
 			compose.OAuth2TokenIntrospectionFactory,
+			compose.OAuth2TokenRevocationFactory,
 			compose.OAuth2PKCEFactory,
+			compose.PushedAuthorizeHandlerFactory,
 		}
 	}
 	s.w = world.New(opt)
@@ -448,14 +463,25 @@ func ZZ_C03_hybrid_revocation() {
 			cs.Signer = signer
 		},
 		// every handler that issues a code precedes the PKCE handler (the order of ComposeAllEnabled)
+		// (the complete list: handler lists drop duplicates by type, and several packages call theirs "Handler")
 		Factories: []compose.Factory{
 			compose.OAuth2AuthorizeExplicitFactory,
 			compose.OAuth2AuthorizeImplicitFactory,
+			compose.OAuth2ClientCredentialsGrantFactory,
 			compose.OAuth2RefreshTokenGrantFactory,
+			compose.OAuth2ResourceOwnerPasswordCredentialsFactory,
+			compose.RFC7523AssertionGrantFactory,
+			compose.RFC8628DeviceFactory,
+			compose.RFC8628DeviceAuthorizationTokenFactory,
+			compose.OpenIDConnectExplicitFactory,
+			compose.OpenIDConnectImplicitFactory,
 			compose.OpenIDConnectHybridFactory,
+			compose.OpenIDConnectRefreshFactory,
+			compose.OpenIDConnectDeviceFactory,
 			compose.OAuth2TokenIntrospectionFactory,
 			compose.OAuth2TokenRevocationFactory,
 			compose.OAuth2PKCEFactory,
+			compose.PushedAuthorizeHandlerFactory,
 		},
 	})
 	form := url.Values{
@@ -488,5 +514,57 @@ func ZZ_C03_hybrid_revocation() {
 		zz.Assert(verifier == v0, "a hybrid code bound to a challenge is redeemed only with its verifier, also after a revocation")
 	} else {
 		zz.Assert(verifier != v0, "the right verifier is accepted")
+	}
+}
+
+// faultyPKCE: the MemoryStore, except that looking the PKCE session up fails with a storage fault while armed.
+type faultyPKCE struct {
+	*storage.MemoryStore
+	armed *bool
+	err   error
+}
+
+func (f *faultyPKCE) GetPKCERequestSession(ctx context.Context, signature string, session fosite.Session) (fosite.Requester, error) {
+	if *f.armed {
+		return nil, f.err
+	}
+	return f.MemoryStore.GetPKCERequestSession(ctx, signature, session)
+}
+
+// ZZ_C03_lookup_fault: the code is bound to an S256 challenge; while the token request is served, the lookup
+// of the PKCE session fails (a storage fault - not "not found"). Whether the code carries a challenge is then
+// unknown to the server: it must not issue, whatever verifier (none, the right one, another one) is sent, and
+// after the fault has passed the binding is what it was.
+func ZZ_C03_lookup_fault() {
+	armed := false
+	fault := []error{errors.New("connection reset"), errors.New("context deadline exceeded"), fosite.ErrServerError}[zz.Choice("fault", 3)]
+	wd := world.New(world.Options{
+		WrapStore: func(st *storage.MemoryStore) interface{} { return &faultyPKCE{MemoryStore: st, armed: &armed, err: fault} },
+	})
+	code, _, err := wd.AuthorizeCode("c1", []string{"offline", "photos"}, url.Values{"code_challenge": {s256(v0)}, "code_challenge_method": {"S256"}})
+	zz.Assume(err == nil && code != "")
+	attempt := func(verifier string, send bool) error {
+		tf := url.Values{"grant_type": {"authorization_code"}, "code": {code}, "redirect_uri": {"https://c1.example/cb"}}
+		if send {
+			tf.Set("code_verifier", verifier)
+		}
+		_, err := wd.TokenAs("c1", world.Secret1, tf)
+		return err
+	}
+	verifier := []string{"", v0, vOther}[zz.Choice("verifier", 3)]
+	send := verifier != "" || zz.Choice("empty-parameter", 2) == 1
+	armed = true
+	err = attempt(verifier, send)
+	armed = false
+	zz.Observe("faulted.err", world.ErrName(err))
+	zz.Assert(err != nil, "lookup fault: nothing is issued while the PKCE binding of the code cannot be read")
+	// afterwards: only the right verifier redeems (a code the faulted attempt invalidated is refused as well)
+	v2 := []string{"", v0, vOther}[zz.Choice("verifier2", 3)]
+	err = attempt(v2, v2 != "")
+	if err == nil {
+		zz.Cover("fault:redeemed-afterwards", true)
+		zz.Assert(v2 == v0, "lookup fault: afterwards the code is redeemed only with its verifier")
+	} else {
+		zz.Cover("fault:refused-afterwards", true)
 	}
 }
